@@ -4041,7 +4041,8 @@ void SoPlexBase<R>::_untransformEquality(SolRational& sol)
          SPxOut::debug(this,
                        "slack column {} for row {}: col status={}, row status={}, redcost={}, dual={}\n",
                        col, row, _basisStatusCols[col], _basisStatusRows[row],
-                       sol._redCost[col].str(), sol._dual[row].str());
+                       (col < sol._redCost.dim() ? sol._redCost[col].str() : std::string("-")),
+                       (row < sol._dual.dim() ? sol._dual[row].str() : std::string("-")));
 
          if(_basisStatusRows[row] != SPxSolverBase<R>::BASIC)
          {
